@@ -23,6 +23,7 @@ objects so they can be GCed
 import (
 	"fmt"
 	"os"
+	"reflect"
 	"runtime/debug"
 	"strings"
 
@@ -1048,6 +1049,27 @@ func do_LOAD_ATTR(vm *Vm, namei int32) error {
 	return vm.setTopAndCheckErr(py.GetAttrString(vm.TOP(), vm.frame.Code.Names[namei]))
 }
 
+// Implements the identity test of "is" and "is not"
+//
+// Dicts, tuples and other objects represented by Go maps, slices or
+// funcs can't be compared with == (it panics), so compare what they
+// point to instead
+func objectIs(a, b py.Object) bool {
+	va, vb := reflect.ValueOf(a), reflect.ValueOf(b)
+	if va.IsValid() && vb.IsValid() {
+		switch va.Kind() {
+		case reflect.Map, reflect.Func:
+			return va.Type() == vb.Type() && va.Pointer() == vb.Pointer()
+		case reflect.Slice:
+			return va.Type() == vb.Type() && va.Pointer() == vb.Pointer() && va.Len() == vb.Len()
+		}
+		if !va.Type().Comparable() || !vb.Type().Comparable() {
+			return false
+		}
+	}
+	return a == b
+}
+
 // Performs a Boolean operation. The operation name can be found in
 // cmp_op[opname].
 func do_COMPARE_OP(vm *Vm, opname int32) error {
@@ -1077,9 +1099,9 @@ func do_COMPARE_OP(vm *Vm, opname int32) error {
 		in, err = py.SequenceContains(b, a)
 		r = py.NewBool(!in)
 	case PyCmp_IS:
-		r = py.NewBool(a == b)
+		r = py.NewBool(objectIs(a, b))
 	case PyCmp_IS_NOT:
-		r = py.NewBool(a != b)
+		r = py.NewBool(!objectIs(a, b))
 	case PyCmp_EXC_MATCH:
 		if bTuple, ok := b.(py.Tuple); ok {
 			for _, exc := range bTuple {
